@@ -38,7 +38,7 @@ AdvOf(x) == IF x = "c" THEN AdvC ELSE AdvS
 \* header lists travel by catalogue name in steps; the model works on the token sequences
 \* (recorded executions may carry a header list that is not in the catalogue: its tokens are then in field hx)
 ResolveCall(c) == IF "hx" \in DOMAIN c THEN [c EXCEPT !.h = c.hx]
-                  ELSE IF "h" \in DOMAIN c THEN [c EXCEPT !.h = HL[@]] ELSE c
+                  ELSE IF "h" \in DOMAIN c THEN [c EXCEPT !.h = HL[@]] @@ [bl0 |-> BL0[c.h]] ELSE c
 FrameTokens(f) == IF "hx" \in DOMAIN f THEN f.hx ELSE HL[f.h]
 \* frames of the harness peer (its encoder uses the table size the model says a conforming peer uses: H2!DecodeFailure)
 ResolveFrame(f, ep) == IF "h" \in DOMAIN f THEN [f EXCEPT !.h = FrameTokens(f)]
@@ -94,6 +94,16 @@ NoFlush(s) == "nf" \in DOMAIN s /\ s.nf
 
 Pred(r, o, ev, ep) == [r |-> r, o |-> PubFrames(o), e |-> ev, q |-> Queries(ep, QSids), z |-> Z(ep), u |-> ep.hd]
 
+\* A receiving step has no predictable outcome when it hands a header block to an HPACK decoder that is out of step with the
+\* encoder that wrote it: the decoder gave up in the middle of an earlier block or never saw one (dl), or (pair mode) the
+\* peer's encoder context was consumed by a send that failed (hd).  Such a step, and what follows it, is not judged.
+HasBlock(fs) == \E i \in 1..Len(fs) : fs[i].t \in {"HEADERS", "PP"} \/ (fs[i].t = "RAW" /\ fs[i].typ \in {1, 5, 9})
+Unpredictable(S, s) ==
+  /\ s.a \in {"recv", "dlv"}
+  /\ LET fs == S.eps[s.x].pend \o (IF s.a = "recv" THEN s.fs ELSE SubSeq(S.chan[s.x], 1, s.k)) IN
+     /\ HasBlock(fs)
+     /\ S.eps[s.x].dl \/ (Pair /\ S.eps[Other(s.x)].hd)
+
 \* one step: returns the new scenario state and the step record with its prediction
 Do(S, s) ==
   LET x == s.x
@@ -114,13 +124,13 @@ Do(S, s) ==
                        THEN <<fs0[1] @@ [pre |-> TRUE]>> \o Tail(fs0) ELSE fs0
                 r == Receive(ep, fs1)
                 fl == Flush(S, x, r.ep, NoFlush(s))
-            IN [S |-> fl.S, last |-> s @@ [p |-> Pred(r.r, fl.o, r.ev, r.ep), dev |-> r.ep.dev]]
+            IN [S |-> fl.S, last |-> s @@ [p |-> Pred(r.r, fl.o, r.ev, r.ep) @@ [ux |-> Unpredictable(S, s)], dev |-> r.ep.dev]]
        [] s.a = "dlv" ->
             LET fs == SubSeq(S.chan[x], 1, s.k)
                 r == Receive(ep, fs)
                 S1 == [S EXCEPT !.chan[x] = SubSeq(@, s.k + 1, Len(@))]
                 fl == Flush(S1, x, r.ep, NoFlush(s))
-            IN [S |-> fl.S, last |-> s @@ [p |-> Pred(r.r, fl.o, r.ev, r.ep), dev |-> r.ep.dev]]
+            IN [S |-> fl.S, last |-> s @@ [p |-> Pred(r.r, fl.o, r.ev, r.ep) @@ [ux |-> Unpredictable(S, s)], dev |-> r.ep.dev]]
 
 RECURSIVE RunSetup(_, _, _)
 RunSetup(S, steps, acc) ==
@@ -163,11 +173,14 @@ H2Exceptions == {"ProtocolError", "FrameTooLargeError", "FrameDataMissingError",
 ProtocolErrors == H2Exceptions \ {"RFC1122Error"}
 \* C29 / C01: a public call that raises adds no bytes to the output
 \* (known finding upgrade_raises_after_preamble: initiate_upgrade_connection emits the preamble before it can fail)
-RaisingCallEmitsNothing == (IsCall /\ last.p.r.c # "ok") => (last.p.o = <<>> \/ Excused({"upgrade_raises_after_preamble"}))
+\* (known finding header_frame_exceeds_limit: the frame-size assertion fails after the frames were written)
+RaisingCallEmitsNothing == (IsCall /\ last.p.r.c # "ok") =>
+                              (last.p.o = <<>> \/ Excused({"upgrade_raises_after_preamble", "header_frame_exceeds_limit"}))
 \* C29 / C17: only documented exception classes
 OnlyKnownExceptions ==
   IsStep => \/ last.p.r.c \in {"ok"} \cup H2Exceptions
             \/ IsCall /\ last.p.r.c \in {"ValueError", "TypeError"}
+            \/ IsCall /\ last.p.r.c = "foreign:AssertionError" /\ Excused({"header_frame_exceeds_limit"})
 
 \* ---------------------------------------------------------------- property formulas C01..C29 (on the step just taken)
 \* Every formula looks at the step in `last`, the state it started from (`src`, kept when EMIT) and the state it
@@ -206,7 +219,13 @@ P_C01_DeliveredSendsAccepted ==
 P_C13_CleanSendsDecode == \A x \in Roles : eps[x].hd => "failed_send_partial_state" \in eps[x].dev
 \* C02: no emitted DATA frame is larger than the peer's MAX_FRAME_SIZE in force when it was sent
 P_C02_FramesWithinLimits ==
-  HasSrc => \A i \in 1..Len(OutF) : OutF[i].t = "DATA" => FclOf(OutF[i]) <= Pre.mof
+  HasSrc => \A i \in 1..Len(OutF) :
+     /\ OutF[i].t = "DATA" => FclOf(OutF[i]) <= Pre.mof
+     \* header blocks: every frame within the limit, no empty CONTINUATION behind a full frame
+     /\ "sizes" \in DOMAIN OutF[i] =>
+           LET sz == OutF[i].sizes IN
+           /\ Excused({"header_frame_exceeds_limit"}) \/ \A j \in 1..Len(sz) : sz[j] <= Pre.mof
+           /\ Len(sz) > 1 => sz[Len(sz)] > 0
 \* C03: a successful send_data fits both windows; an oversized one raises FlowControlError and emits nothing
 P_C03_SendWithinWindows ==
   (HasSrc /\ IsCall /\ last.c.op = "data" /\ last.c.pad <= 255 /\ Has(Pre, last.c.sid)) =>
